@@ -178,7 +178,21 @@ def h_make_functions(ctx):
         # `vrs` is any collection of output bits: order and repetitions
         # must not matter
         arg = list(reversed(arg)) + [arg[0]]
+    form = ctx.p.get('form', 'list')
+    if form == 'set':
+        arg = set(arg)
+    elif form == 'tuple':
+        arg = tuple(arg)
+    elif form == 'iter':
+        # any iterable: a one-shot iterator can be read once only
+        arg = iter(list(arg))
+    elif form == 'keys':
+        arg = dict.fromkeys(arg).keys()
+    before = None if form == 'iter' else list(arg)
     fs = ctx.call(mf, r, arg, bdd, label='make_functions')
+    if before is not None:
+        w.oblige(f'make_functions.frame: the caller\'s collection of outputs ({form}) is left as it was',
+                 z3.BoolVal(list(arg) == before and len(arg) == len(before)))
     w.oblige('make_functions.post: functions only for requested outputs',
              z3.BoolVal(set(fs) <= set(vrs)))
     w.oblige('make_functions.post: an output without a function is ignored by the relation',
